@@ -328,7 +328,7 @@ theorem ex_cut_second_block :
   rw [exFile_eq]
   simp [readAll, next, nextInner, enterBlock, leaveBlock, fillBuf, readVarint, decodeVar,
     decodeVarI32, decodeVarI64, decodeVarU64, decodeVarU64Aux, readExact, readExactR, readSome,
-    consume, exDatum, de, deAny, exBytes, exSync, exNull, openSrc, bind, pure, exUz2, exUz4,
+    consume, exDatum, de, deAny, exBytes, exSync, exNull, openSrc, bind, pure, exUz2, exUz4, srcAfterBlock, srcAfterBlockGo,
     exUz600, varintBytewise, DeM.fail, Prod.map, ofDe]
 
 /-- Cut after 3 bytes, inside the FIRST block (`02` present, `04` missing): the streaming reader
@@ -340,7 +340,7 @@ theorem ex_cut_first_block :
   rw [exFile_eq]
   simp [readAll, next, nextInner, enterBlock, leaveBlock, fillBuf, readVarint, decodeVar,
     decodeVarI32, decodeVarI64, decodeVarU64, decodeVarU64Aux, readExact, readExactR, readSome,
-    consume, exDatum, de, deAny, exBytes, exSync, exNull, openSrc, bind, pure, exUz2, exUz4,
+    consume, exDatum, de, deAny, exBytes, exSync, exNull, openSrc, bind, pure, exUz2, exUz4, srcAfterBlock, srcAfterBlockGo,
     exUz600, varintBytewise, DeM.fail, Prod.map, ofDe]
 
 /-- The same two cuts on the slice back-end: the cut block is refused as a whole. -/
@@ -361,7 +361,7 @@ theorem ex_whole_file :
   rw [exFile_eq]
   simp [readAll, next, nextInner, enterBlock, leaveBlock, fillBuf, readVarint, decodeVar,
     decodeVarI32, decodeVarI64, decodeVarU64, decodeVarU64Aux, readExact, readExactR, readSome,
-    consume, exDatum, de, deAny, exBytes, exSync, exNull, openSrc, bind, pure, exUz2, exUz4,
+    consume, exDatum, de, deAny, exBytes, exSync, exNull, openSrc, bind, pure, exUz2, exUz4, srcAfterBlock, srcAfterBlockGo,
     exUz600, varintBytewise, DeM.fail, Prod.map, ofDe]
 
 theorem exGood : ∀ v ∈ exBlocks.flatten, GoodVal {} #[.int] .int 64 20 v := by
